@@ -57,6 +57,9 @@ CHECKS["C15"] = dict(technique="property-based testing (rapid): honest shuffles 
 CHECKS["C10"] = dict(technique="property-based testing (rapid): model-based generated protocol histories (faulty deals through the real encryption path, valid/forged/Byzantine responses, good/bad justifications, timeouts) with invariants evaluated after every step on every party",
   text="For both VSS variants the harness plays dealer, network and Byzantine parties: per-verifier deal faults (11 kinds) are encrypted by the dealer's own code, responses of 8 kinds and justifications of 5 kinds are delivered in generated orders with duplicates and timeouts; a harness model of each party's accepted history decides, independently of the library's return values, which messages are valid; after every step: approvals only for valid deals, certified => >= t valid approvals/justified complaints and no incorrect justification, documented completeness, certified => recoverable; plus all-honest runs with generated delivery orders. Exploration only.",
   note="Trusted: rapid; the harness' own polynomial/commitment check (self-checked on an honest deal at start-up). No hook was needed: Dealer.PlaintextDeal returns the dealer's own deal, which is edited before EncryptedDeal. Justification signatures are not authenticated by the VSS layer and are not in the fault menu.", ref="4/C10")
+CHECKS["C11"] = dict(technique="property-based testing (rapid): generated Byzantine fault assignments and per-node delivery permutations for Pedersen DKG (generator level, resharing, Protocol driver under a harness-owned scheduler) and Rabin DKG, with an agreement/consistency oracle on the honest outputs",
+  text="Three harnesses share one output oracle (identical commitments and QUAL, shares on the agreed polynomial, t shares reconstruct the key, key = sum of QUAL contributions / unchanged after resharing, cheating or malformed dealers out of QUAL, honest dealers in, all-honest => everybody completes): (a) Pedersen DistKeyGenerator with up to n-t Byzantine nodes rewriting their bundles from an 18-entry menu and per-node delivery permutations, fresh and resharing to five group shapes, fast-sync on/off; (b) the Protocol driver run under a harness Board/Phaser that hands one packet or tick to one node at a time (barrier via the no-op InitPhase tick), with forged, equivocating, duplicated packets; (c) Rabin DKG message passing with Byzantine dealers built from the public VSS API. Exploration only.",
+  note="Trusted: rapid; synchrony assumption (packets of a phase reach everybody before the next tick); a 30 s wall-clock guard only yields 'inconclusive'. Two open known findings are excluded by configuration and reported as KNOWN-FINDING (fast-sync equivocation order dependence; Rabin unjustified complaint keeps dealer in QUAL).", ref="4/C11")
 NOT_YET = {}
 
 def main():
